@@ -356,6 +356,7 @@ class World(object):
         self.stream_bytes = None
         self.item_ends = None
         self.on_frame_written = None
+        self.last_app_payload = None
         self.watch_steps = 0
 
     # -- recording and time
@@ -368,6 +369,17 @@ class World(object):
 
     def urandom(self, n):
         return os.urandom(n)
+
+    def peer_inflate(self, payload):
+        """The simulated server's permessage-deflate inflater for client messages (window from the scenario)."""
+        import zlib
+        z = self.cur.get('srv_inflater')
+        if z is None or self.sc.get('peer_client_no_takeover'):
+            z = self.cur['srv_inflater'] = zlib.decompressobj(-int(self.sc.get('peer_client_wbits', 15)))
+        try:
+            return z.decompress(payload + b'\x00\x00\xff\xff')
+        except zlib.error:
+            return None
 
     def server_deflate(self, payload):
         """The simulated server's permessage-deflate compressor (raw deflate, sync flush, tail stripped);
@@ -435,7 +447,12 @@ class World(object):
             f = frames[0]
             r = {"k": "wr", "sock": sid, "what": "frame", "fin": f['fin'], "rsv1": f['rsv1'], "rsv2": f['rsv2'],
                  "rsv3": f['rsv3'], "op": f['op'], "masked": f['masked'], "key": f['key'], "lenform": f['lenform'],
-                 "minimal": f['minimal'], "pl": codec.pv(f['payload'])}
+                 "minimal": f['minimal'], "pl": codec.pv(f['payload']), "raw": codec.pv(f['payload'])}
+            self.last_app_payload = f['payload']
+            if f['rsv1'] and self.sc.get('peer_inflate'):
+                app = self.peer_inflate(f['payload'])
+                self.last_app_payload = app
+                r['pl'] = codec.pv(app) if app is not None else {"n": [0, 0], "s": [], "h": "INFLATE-FAILED"}
             self.rec(r)
             if self.on_frame_written:
                 self.on_frame_written(f, r)
@@ -649,8 +666,17 @@ def do_call(world, ws, call, at):
     args = call[1:]
     res, wserr = 'ok', False
     nlog = len(world.log)
+    api = None
+    if name == 'api':
+        from . import args as argmod
+        method, spec = call[1], call[2]
+        a, kw, expected, jobj = argmod.build(method, spec, world.rng)
+        snap = argmod.snapshot(a, kw)
+        api = (method, a, kw, expected, jobj, snap)
     try:
-        if name == 'send_text':
+        if api:
+            getattr(ws, api[0])(*api[1], **api[2])
+        elif name == 'send_text':
             kw = {} if len(args) < 2 else {'compress': bool(args[1])}
             ws.send_text(args[0] if isinstance(args[0], str) else bytes(args[0]).decode('utf-8'), **kw)
         elif name == 'send_binary':
@@ -679,6 +705,23 @@ def do_call(world, ws, call, at):
     nwr = sum(1 for r in world.log[nlog:] if r['k'] == 'wr')
     nwrf = sum(1 for r in world.log[nlog:] if r['k'] == 'wrf')
     r = {"k": "call", "m": name, "res": res, "wserr": wserr, "at": at, "nwr": nwr, "nwrf": nwrf}
+    if api:
+        method, a, kw, expected, jobj, snap = api
+        r['m'] = method
+        unchanged = (snap == (a, kw)) and all(type(x) is type(y) for x, y in zip(snap[0], a))
+        exp = expected
+        if jobj is not None:
+            # send_json: the payload must be JSON text for the caller's object
+            fr = [x for x in world.log[nlog:] if x['k'] == 'wr' and x.get('what') == 'frame']
+            raw = world.last_app_payload
+            try:
+                ok = raw is not None and json.loads(raw.decode('utf-8')) == jobj
+            except Exception:
+                ok = False
+            exp = raw if ok else b'<not the JSON text of the object>'
+        world.rec({"k": "arg", "pl": codec.pv(exp if exp is not None else b''), "unchanged": bool(unchanged)})
+        world.rec(r)
+        return r
     if name == 'close':
         r['code'] = 1000 if not args else (-1 if args[0] in (None, -1) else int(args[0]))
         reason = b'goodbye' if len(args) < 2 else (args[1].encode('utf-8') if isinstance(args[1], str) else bytes(args[1]))
